@@ -492,7 +492,17 @@ class Interp(object):
         if k == "other" and name in getattr(self.prog, "const_bodies", {}):
             return self.const_item(name)
         if k == "other" and name in getattr(self.prog, "consts", {}):
-            return self.prog.consts[name]
+            v = self.prog.consts[name]
+            t = self.prog.types[c["ty"]] if "ty" in c else {}
+            if t.get("k") == "adt" and t.get("adt") in self.prog.adts:
+                # a constant of a field-less enum type (`const X: Ordering = Ordering::Less`): its discriminant
+                ad = self.prog.adts[t["adt"]]
+                for vi, var in enumerate(ad["variants"]):
+                    d = int(var["discr"]) if var.get("discr") is not None else vi
+                    if not var.get("fields") and (d == v or any((d - v) % m == 0 and abs(d - v) == m for m in (1 << 8, 1 << 16, 1 << 32, 1 << 64))):
+                        return Adt(t["adt"], vi, ())
+                raise Inconclusive("constant %s of type %s" % (name, t.get("adt")), self.where())
+            return v
         raise Inconclusive("constant %s" % c.get("s"), self.where())
 
     def const_item(self, name):
@@ -650,6 +660,8 @@ class Interp(object):
         if kind == "IntToFloat" and isinstance(v, Tok) and v.kind == "I":
             # lossy for large values: the result is a float token whose comparisons may collide (models._float_cmp)
             return Tok("F", "float(%s)" % v.name, v.val + v.off, dom="float", extra={"of": v})
+        if kind == "Subtype":
+            return v                     # same value at a supertype (lifetimes of closures / fn items)
         if kind in ("Transmute", "PtrToPtr") or kind.startswith("PointerCoercion") or kind.startswith("PointerExpose"):
             if isinstance(v, BoxV):
                 return Ptr(v.cell, ())
